@@ -136,6 +136,9 @@ pub fn run_case(ctx: &Ctx, case: u64) {
                     live += 1;
                     let w = waker(cw.clone());
                     let mut cx = Context::from_waker(&w);
+                    // read the wake count *before* polling: a wake-up that arrives right after the
+                    // poll registered the waker must count as the promised wake-up
+                    let base = cw.0.load(Ordering::SeqCst);
                     match st.as_mut().poll_next(&mut cx) {
                         Poll::Ready(it) => {
                             let end = it.is_none();
@@ -148,8 +151,6 @@ pub fn run_case(ctx: &Ctx, case: u64) {
                             pend.fetch_add(1, Ordering::Relaxed);
                             // the stream promised to wake this task when something arrives: wait for
                             // the wake-up (logical wait), never poll speculatively
-                            *seen_wakes = cw.0.load(Ordering::SeqCst).max(*seen_wakes);
-                            let base = *seen_wakes;
                             let cw2 = cw.clone();
                             match await_cond(20_000, &move || cw2.0.load(Ordering::SeqCst) > base) {
                                 Ok(true) => {
